@@ -920,6 +920,10 @@ func (e *Engine) fnMod(ms *ModSet, fn *ssa.Function) {
 		return
 	case "math.Ceil", "math.Floor":
 		return
+	case "(*sync.Once).Do":
+		ms.keys["ONCE"] = true
+		ms.all = true // the function value passed in is run
+		return
 	}
 	if strings.HasPrefix(full, "sync/atomic.") {
 		// atomic ops write through their pointer argument; handled at the call by the intrinsic. Conservative: uint64/int64 cells
